@@ -137,7 +137,7 @@ def canary_text(text, fn_names):
     if isinstance(fn_names, str):
         fn_names = [fn_names]
     for fn_name in fn_names:
-        rx = re.compile(r"(/\*@uc:%s\*/[^{;]*?\bensures\b)" % re.escape(fn_name), re.S)
+        rx = re.compile(r"(/\*@uc:(?:\w+::)?%s\*/[^{;]*?\bensures\b)" % re.escape(fn_name), re.S)
         m = rx.search(text)
         if not m:
             rx = re.compile(r"(fn\s+%s\b[^{;]*?\bensures\b)" % re.escape(fn_name), re.S)
@@ -204,13 +204,14 @@ def classify_verus(info):
 
 def fn_at_line(text, line, want_uc=False):
     """name of the fn whose item contains `line` (1-based) in generated text
-    (want_uc: also say whether it is a function extracted from /repo, marked /*@uc:..*/)"""
+    (want_uc: also say whether it is a function extracted from /repo, marked /*@uc:Type::fn*/;
+    for those the qualified label is returned)"""
     best = None
     uc = False
-    for m in re.finditer(r"(/\*@uc:\w+\*/\s*(?:pub(?:\([^)]*\))?\s+)?)?\bfn\s+(\w+)", text):
+    for m in re.finditer(r"(?:/\*@uc:([\w:]+)\*/\s*(?:pub(?:\([^)]*\))?\s+)?)?\bfn\s+(\w+)", text):
         ln = text.count("\n", 0, m.end()) + 1
         if ln <= line:
-            best = m.group(2)
+            best = m.group(1) or m.group(2)
             uc = bool(m.group(1))
         else:
             break
@@ -257,15 +258,21 @@ def run_verus_unit(unit, repo, want_canary=True):
         name = m.group(1)
         ctext = None
         for fmeta in meta.get("functions", []):
-            if fmeta["src"] == "expanded":
-                continue
             try:
                 from rustscan import Source
-                src = Source(open(os.path.join(repo, fmeta["src"])).read(), fmeta["src"])
-                a, b = src.find_const(src.whole(), name)
+                if fmeta["src"] == "expanded":
+                    src = Source(expanded_source(repo), "expanded")
+                    rng = src.whole()
+                    for mname in fmeta.get("mod", "-").split("::"):
+                        if mname != "-":
+                            rng = src.find_mod(rng, mname)
+                else:
+                    src = Source(open(os.path.join(repo, fmeta["src"])).read(), fmeta["src"])
+                    rng = src.whole()
+                a, b = src.find_const(rng, name)
                 ctext = src.text[a:b]
                 break
-            except (AnchorLost, OSError):
+            except (AnchorLost, OSError, Undecided):
                 continue
         if ctext is None:
             break
@@ -310,7 +317,8 @@ def run_verus_unit(unit, repo, want_canary=True):
             # running out of resources while trying to prove `false` is also a refusal (no quick contradiction)
             res_out = cst == "undecided" and cfails and cfails[0].get("kind") == "resource" and \
                 re.search(r"rlimit[^\n]*\n\s*-->[^\n]*\n[^\n]*\n[^\n]*\b%s\b" % re.escape(n), cinfo["stderr"])
-            if not (cst == "logical" and n in failed_fns) and not res_out:
+            hit = any(ff == n or (ff or "").endswith("::" + n) for ff in failed_fns)
+            if not (cst == "logical" and hit) and not res_out:
                 bad.append("%s(%s)" % (n, cst))
         res["canary"] = "fails-as-required x%d" % len(names) if not bad else "VACUOUS %s" % bad
         if bad:
@@ -362,6 +370,25 @@ def kani_scratch(repo, features_off=False):
             raise AnchorLost("file %s missing" % rel)
         with open(p, "a") as f:
             f.write('\n#[cfg(kani)]\n#[path = "%s"]\nmod verif_kani;\n' % h)
+    # harnesses generated from the layout tables (leaf contracts of the fixed-layout parsers)
+    import layouts
+    gdir = os.path.join(BUILD, "kani_gen")
+    os.makedirs(gdir, exist_ok=True)
+    for jf in sorted(os.listdir(os.path.join(CONTRACTS, "layouts"))):
+        if not jf.endswith(".json"):
+            continue
+        name = jf[:-5]
+        L = json.load(open(os.path.join(CONTRACTS, "layouts", jf)))
+        if not L.get("module_file"):
+            continue
+        gp = os.path.join(gdir, "h_gen_%s.rs" % name)
+        with open(gp, "w") as f:
+            f.write(layouts.gen_kani(name))
+        p = os.path.join(d, L["module_file"])
+        if not os.path.exists(p):
+            raise AnchorLost("file %s missing" % L["module_file"])
+        with open(p, "a") as f:
+            f.write('\n#[cfg(kani)]\n#[path = "%s"]\nmod verif_kani_gen;\n' % gp)
     os.makedirs(os.path.join(d, ".cargo"), exist_ok=True)
     with open(os.path.join(d, ".cargo", "config.toml"), "w") as f:
         f.write("[net]\noffline = true\n")
@@ -562,6 +589,7 @@ def main():
     ap.add_argument("--only", default=None)
     ap.add_argument("--jobs", type=int, default=int(os.environ.get("VERIF_JOBS", "16")))
     ap.add_argument("--no-evidence", action="store_true")
+    ap.add_argument("--skip-kani", action="store_true", help="dev: run only the Verus and build obligations")
     args = ap.parse_args()
     prop = args.prop
     tier = args.tier if args.tier in ("quick", "thorough") else "quick"
@@ -577,6 +605,17 @@ def main():
         units = [u for u in units if u["id"] == args.only]
     if tier == "quick":
         units = [u for u in units if u.get("tier", "quick") == "quick"]
+
+    # obligations named as cross-checks of a selected unit are run with it
+    have = set(u["id"] for u in units)
+    for u in list(units):
+        for ids in (u.get("cross") or {}).values():
+            for cid in ids:
+                if cid not in have:
+                    units += [x for x in reg.get("unit", []) if x["id"] == cid]
+                    have.add(cid)
+    if args.skip_kani:
+        units = [u for u in units if not u["kind"].startswith("kani")]
     pmeta = reg.get("property", {}).get(prop, {})
     if not units:
         log("no obligations registered for %s" % prop)
@@ -690,6 +729,16 @@ def finish(prop, tier, seed, units, results, ledger, findings, fixed, pmeta, arg
         if st == "ok":
             (bounded_ok if is_bounded else proved).append(r)
             continue
+        if st == "logical" and r.get("kind") == "verus" and u.get("cross"):
+            # The same leaf contract is also proved on the compiled crate by complete Kani harnesses.  If Verus
+            # fails only in functions whose Kani counterparts all pass in this run, the code still satisfies the
+            # contract and the Verus failure is about the *shape* of the (expanded) text: undecided, not an alarm.
+            st_by_id = dict((x["id"], x.get("status")) for x in results)
+            fl = [f for f in r.get("failures", []) if f.get("in_repo_code")]
+            if fl and all(u["cross"].get(f.get("function")) and all(st_by_id.get(c) == "ok" for c in u["cross"][f["function"]]) for f in fl):
+                r["status"] = st = "undecided"
+                r["reason"] = "Verus failed in %s but the complete Kani proofs of the same contracts (%s) pass on the compiled crate" % (
+                    sorted(set(f["function"] for f in fl)), sorted(set(c for f in fl for c in u["cross"][f["function"]])))
         if st == "logical":
             # a finding recorded for the whole obligation (no `block=`) suppresses exactly this obligation
             kf = [f for f in findings if f.get("obligation") == r["id"] and not f.get("block")]
@@ -763,9 +812,12 @@ def finish(prop, tier, seed, units, results, ledger, findings, fixed, pmeta, arg
                              "opaque_statements": r.get("extraction", {}).get("opaque_statements"),
                              "reason": r.get("reason")})
         else:
-            n_obl += 1
-            n_dis += 1 if r.get("status") == "ok" else 0
-            obl_list.append({"id": r["id"], "status": r.get("status"), "backend": r.get("backend"),
+            if r.get("known_finding"):
+                pass   # recorded defect: listed under known findings, not an obligation of this run
+            else:
+                n_obl += 1
+                n_dis += 1 if r.get("status") == "ok" else 0
+            obl_list.append({"id": r["id"], "status": "known-finding" if r.get("known_finding") else r.get("status"), "backend": r.get("backend"),
                              "functions_under_contract": r.get("functions"), "cbmc_checks": r.get("checks"),
                              "covers": r.get("covers"), "solver_s": r.get("solver_s"), "wall_s": r.get("wall_s"),
                              "reason": r.get("reason")})
@@ -809,7 +861,10 @@ def finish(prop, tier, seed, units, results, ledger, findings, fixed, pmeta, arg
     for r in bounded_other:
         log("bounded-incomplete %-27s %s" % (r["id"], (r.get("reason") or r.get("status"))[:200]))
     unit_ids = set(u["id"] for u in load_registry().get("unit", []) if prop in u.get("props", []))
-    known_printed = [f for f in findings if f.get("property") == prop or f.get("obligation") in unit_ids]
+    known_printed = [f for f in findings if f.get("property") == prop]
+    mine = set(f.get("obligation") for f in known_printed)
+    known_printed += [f for f in findings if f.get("property") != prop and f.get("obligation") in unit_ids and f.get("obligation") not in mine
+                      and not mine.add(f.get("obligation"))]
     for f in known_printed:
         log("KNOWN-FINDING: property=%s obligation=%s %s%s" % (prop, f.get("obligation"),
             ("input " + f["block"] + ": ") if f.get("block") else "", f.get("what", "")))
